@@ -359,7 +359,7 @@ def run(ctx, report: Report) -> None:
     r2.instance({'functions_reachable_from_matching_api': len(reach)}, key='reach', nontrivial=False)
 
     # ---- R3 --------------------------------------------------------------------------------------------
-    r3 = report.rule('C04-R3', 'memo tables are transparent', floor=4)
+    r3 = report.rule('C04-R3', 'memo tables are transparent', floor=19)
     _, init = src.func('css_match.CSSMatch.__init__')
     memos = {}
     for st in walk_no_nested(init):
@@ -498,7 +498,7 @@ def run(ctx, report: Report) -> None:
     default_button_table(ctx, r3)
 
     # ---- R5 (the whole pipeline by interpretation, bounded) --------------------------------------------------------------
-    r5 = report.rule('C04-R5', 'a compiled selector answers the same after any sequence of other queries (bounded)', floor=3)
+    r5 = report.rule('C04-R5', 'a compiled selector answers the same after any sequence of other queries (bounded)', floor=29)
     from .e2ematch import history_table, one_call_table
     history_table(ctx, r5)
     one_call_table(ctx, r5, deep=(ctx.tier == 'thorough'))
